@@ -123,6 +123,10 @@ def build_automata(san="asan"):
     return build("run_automata", ["run_automata.c", "vport.c"], CORE, san=san, gen={"glue.inc": extract_glue()})
 
 
+def build_registry(san="asan"):
+    return build("run_registry", ["run_registry.c", "vport.c"], CORE, san=san, libs=("-lpthread",))
+
+
 def build_responder(san="asan"):
     return build("run_responder", ["run_responder.c", "vport.c"], CORE + ["os/esp32/daemon/lltd_esp32.c"], san=san)
 
